@@ -781,6 +781,8 @@ fn sender_body(c: &mut Ctx, su: &Setup, thorough: bool) -> Result<(), Violation>
     let mut cur_win: u64 = if su.victim_listens { (init_win as u64) << pshift } else { init_win as u64 };
     let mut max_sent_off: i64 = 1;
     let mut fin_off: Option<i64> = None;
+    // (position of the victim's FIN as far as the peer has received it)
+    let mut fin_any: Option<i64> = None;
     // our receive progress: highest contiguous offset received from the victim
     let mut got = Ranges(vec![]);
     let mss_bound: usize = match c.p_mss {
@@ -789,6 +791,7 @@ fn sender_body(c: &mut Ctx, su: &Setup, thorough: bool) -> Result<(), Violation>
     };
     let steps = if thorough { 600 } else { 200 };
     let nsteps = c.tape.range(10, steps);
+    let mut after_triple = false;
     for _ in 0..nsteps {
         // ---- victim application
         if !closed && written < total && c.tape.chance(3, 4) {
@@ -807,8 +810,11 @@ fn sender_body(c: &mut Ctx, su: &Setup, thorough: bool) -> Result<(), Violation>
             guard("tcp::close", || s.close())?;
             closed = true;
         }
-        // ---- let it transmit, check every segment strictly
-        let frames = c.poll()?;
+        // ---- let it transmit, check every segment strictly (now and then the device has no free transmit slot:
+        // whatever the socket wanted to send then has to survive until the next poll)
+        let refuse = if after_triple { c.tape.draw(2) == 0 } else { c.tape.draw(8) == 0 };
+        after_triple = false;
+        let frames = if refuse { c.poll_tx_refused()? } else { c.poll()? };
         for p in &frames {
             let Some((ip, t)) = p.tcp() else { continue };
             if t.has(F_RST) || t.has(F_SYN) {
@@ -816,12 +822,24 @@ fn sender_body(c: &mut Ctx, su: &Setup, thorough: bool) -> Result<(), Violation>
             }
             let off = seq_diff(t.seq, iss);
             let len = t.payload.len() as i64;
+            // one segment in eight never reaches the peer (a FIN more often: what covers a lost FIN is a path of
+            // its own in the sender)
+            let lost = (len > 0 || t.has(F_FIN)) && (c.tape.draw(8) == 0 || (t.has(F_FIN) && c.tape.draw(3) == 0));
+            if lost {
+                c.stats.inc("c05.victim-segments-lost");
+            }
             if len > 0 {
                 c.stats.inc("c05.data-segments");
                 if off + len <= max_sent_off {
                     c.stats.inc("tcp.retransmission");
                 }
-                got.add((off - 1).max(0) as u64, (off - 1 + len).max(0) as u64);
+                if !lost {
+                    // (a keep-alive sent after the FIN carries one garbage octet at the FIN's sequence number: not data)
+                    got.add((off - 1).max(0) as u64, ((off - 1 + len).max(0) as u64).min(written));
+                }
+            }
+            if t.has(F_FIN) && !lost {
+                fin_any = Some(off + len);
             }
             if c.props.has("C05") {
                 let detail = |what: &str| format!("{}: victim emitted {} ; told ack_off={} win={} ; max_sent_off={} written={} closed={}", what, p.summary(), seq_diff(cur_ack, iss), cur_win, max_sent_off, written, closed);
@@ -876,75 +894,92 @@ fn sender_body(c: &mut Ctx, su: &Setup, thorough: bool) -> Result<(), Violation>
                 max_sent_off = end;
             }
         }
-        // ---- the adversarial receiver answers (or not)
-        let act = c.tape.draw(10);
-        let have = 1 + got.prefix() as i64; // next expected offset from the victim
-        let fin_seen = fin_off.map(|f| have == f).unwrap_or(false);
-        let new_ack_off = match act {
-            0 | 1 => seq_diff(cur_ack, iss),                               // duplicate ACK
-            2 => seq_diff(cur_ack, iss) + c.tape.draw(((have - seq_diff(cur_ack, iss)).max(0) + 1) as u64) as i64, // partial
-            3 => -1,                                                       // withhold
-            _ => have + fin_seen as i64,
-        };
-        if new_ack_off >= 0 {
-            let win_raw: u16 = match c.tape.draw(8) {
-                0 => 0,
-                1 => 1,
-                2 => (cur_win >> pshift).min(65535) as u16,
-                3 => ((cur_win >> pshift) / 2).min(65535) as u16,
-                4 => 65535,
-                5 => c.tape.range(0, 100) as u16,
-                _ => c.tape.range(0, 8192) as u16,
+        // ---- the adversarial receiver answers (or not); sometimes several of its segments arrive back to back,
+        // before the victim gets to transmit again
+        let burst = if c.tape.draw(6) == 0 { 2 + c.tape.draw(4) } else { 1 };
+        if burst > 1 {
+            c.stats.inc("c05.ack-bursts");
+        }
+        for _ in 0..burst {
+            let act = c.tape.draw(10);
+            let have = 1 + got.prefix() as i64; // next expected offset from the victim
+            let fin_seen = fin_any.map(|f| have == f).unwrap_or(false);
+            let new_ack_off = match act {
+                0 | 1 => seq_diff(cur_ack, iss),                               // duplicate ACK
+                2 => seq_diff(cur_ack, iss) + c.tape.draw(((have - seq_diff(cur_ack, iss)).max(0) + 1) as u64) as i64, // partial
+                3 => -1,                                                       // withhold
+                _ => have + fin_seen as i64,
             };
-            let new_ack = iss.wrapping_add(new_ack_off as u32);
-            let new_win = (win_raw as u64) << pshift;
-            if new_ack == cur_ack && new_win == cur_win {
-                c.stats.inc("c05.dup-acks");
-            }
-            if seq_diff(new_ack, iss) + (new_win as i64) < seq_diff(cur_ack, iss) + cur_win as i64 {
-                c.stats.inc("c05.win-shrunk");
-            }
-            if new_win == 0 {
-                c.stats.inc("c05.win-zero");
-            }
-            // the peer may close its own direction at some point (FIN on one of its ACKs): the victim goes on sending
-            // in CLOSE-WAIT and, once its application closes, in LAST-ACK - the same window rules apply there
-            let mut flags = F_ACK;
-            let p_seq = c.irs.wrapping_add(1).wrapping_add(p_fin_sent as u32);
-            if !p_fin_sent && c.tape.draw(25) == 0 {
-                flags |= F_FIN;
-                p_fin_sent = true;
-                c.stats.inc("c05.peer-fin-sent");
-            }
-            let mut t = Tcp { seq: p_seq, ack: new_ack, flags, win: win_raw, ..Tcp::default() };
-            // sometimes the ACK carries one to four SACK blocks (out-of-order data the receiver holds, or duplicates
-            // it saw): whatever the sender makes of them, the ACK number and window of that segment count
-            if c.tape.draw(6) == 0 {
-                let nb = 1 + c.tape.draw(4) as usize;
-                let top = max_sent_off.max(2 * nb as i64 + 2) as u64;
-                let mut cuts: Vec<u64> = (0..2 * nb).map(|_| 1 + c.tape.draw(top)).collect();
-                cuts.sort();
-                cuts.dedup();
-                for pair in cuts.chunks(2) {
-                    if pair.len() == 2 {
-                        t.opts.sack.push((iss.wrapping_add(pair[0] as u32), iss.wrapping_add(pair[1] as u32)));
-                    }
+            if new_ack_off >= 0 {
+                // (a duplicate ACK proper repeats the window too - three of them make the victim retransmit early)
+                let proper_dup = act <= 1 && c.tape.draw(4) != 0;
+                let win_raw: u16 = match if proper_dup { 2 } else { c.tape.draw(8) } {
+                    0 => 0,
+                    1 => 1,
+                    2 => (cur_win >> pshift).min(65535) as u16,
+                    3 => ((cur_win >> pshift) / 2).min(65535) as u16,
+                    4 => 65535,
+                    5 => c.tape.range(0, 100) as u16,
+                    _ => c.tape.range(0, 8192) as u16,
+                };
+                let new_ack = iss.wrapping_add(new_ack_off as u32);
+                let new_win = (win_raw as u64) << pshift;
+                if new_ack == cur_ack && new_win == cur_win {
+                    c.stats.inc("c05.dup-acks");
                 }
-                c.stats.inc(match t.opts.sack.len() {
-                    0 => "c05.ack-with-sack-blocks.0",
-                    1 => "c05.ack-with-sack-blocks.1",
-                    2 => "c05.ack-with-sack-blocks.2",
-                    3 => "c05.ack-with-sack-blocks.3",
-                    _ => "c05.ack-with-sack-blocks.4",
-                });
+                if seq_diff(new_ack, iss) + (new_win as i64) < seq_diff(cur_ack, iss) + cur_win as i64 {
+                    c.stats.inc("c05.win-shrunk");
+                }
+                if new_win == 0 {
+                    c.stats.inc("c05.win-zero");
+                }
+                // the peer may close its own direction at some point (FIN on one of its ACKs): the victim goes on sending
+                // in CLOSE-WAIT and, once its application closes, in LAST-ACK - the same window rules apply there
+                let mut flags = F_ACK;
+                let p_seq = c.irs.wrapping_add(1).wrapping_add(p_fin_sent as u32);
+                if !p_fin_sent && c.tape.draw(25) == 0 {
+                    flags |= F_FIN;
+                    p_fin_sent = true;
+                    c.stats.inc("c05.peer-fin-sent");
+                }
+                let mut t = Tcp { seq: p_seq, ack: new_ack, flags, win: win_raw, ..Tcp::default() };
+                // sometimes the ACK carries one to four SACK blocks (out-of-order data the receiver holds, or duplicates
+                // it saw): whatever the sender makes of them, the ACK number and window of that segment count
+                if c.tape.draw(6) == 0 {
+                    let nb = 1 + c.tape.draw(4) as usize;
+                    let top = max_sent_off.max(2 * nb as i64 + 2) as u64;
+                    let mut cuts: Vec<u64> = (0..2 * nb).map(|_| 1 + c.tape.draw(top)).collect();
+                    cuts.sort();
+                    cuts.dedup();
+                    for pair in cuts.chunks(2) {
+                        if pair.len() == 2 {
+                            t.opts.sack.push((iss.wrapping_add(pair[0] as u32), iss.wrapping_add(pair[1] as u32)));
+                        }
+                    }
+                    c.stats.inc(match t.opts.sack.len() {
+                        0 => "c05.ack-with-sack-blocks.0",
+                        1 => "c05.ack-with-sack-blocks.1",
+                        2 => "c05.ack-with-sack-blocks.2",
+                        3 => "c05.ack-with-sack-blocks.3",
+                        _ => "c05.ack-with-sack-blocks.4",
+                    });
+                }
+                c.log(|| format!("P tx ACK off={} win={} sack={:?}", new_ack_off, new_win, t.opts.sack));
+                let f = c.seg(&t);
+                cur_ack = new_ack;
+                cur_win = new_win;
+                // frames emitted directly in reply are judged against the new values in the next round
+                let _ = c.inject(f.clone())?;
+                // a duplicate ACK proper often comes in threes (what reordering or a lost segment followed by three
+                // more produces), and the device is often still busy right afterwards
+                if proper_dup && c.tape.draw(2) == 0 {
+                    let _ = c.inject(f.clone())?;
+                    let _ = c.inject(f)?;
+                    after_triple = true;
+                    c.stats.inc("c05.triple-duplicate-acks");
+                }
+                // (replies to a pure ACK are themselves pure ACKs or nothing)
             }
-            c.log(|| format!("P tx ACK off={} win={} sack={:?}", new_ack_off, new_win, t.opts.sack));
-            let f = c.seg(&t);
-            cur_ack = new_ack;
-            cur_win = new_win;
-            // frames emitted directly in reply are judged against the new values in the next round
-            let _ = c.inject(f)?;
-            // (replies to a pure ACK are themselves pure ACKs or nothing)
         }
         // ---- time
         let d = match c.tape.draw(6) {
@@ -957,6 +992,118 @@ fn sender_body(c: &mut Ctx, su: &Setup, thorough: bool) -> Result<(), Violation>
         };
         c.now += d;
     }
+    if c.props.has("C02") {
+        honest_epilogue(c, su, key, total, written, closed, got, fin_any, p_fin_sent, pshift)?;
+    }
+    Ok(())
+}
+
+/// C02 with a scripted peer: after the adversarial phase (withheld, partial and duplicate ACKs, closed and shrunk
+/// windows, bogus SACK blocks, lost segments) the peer turns into a plain correct receiver with an open window on a
+/// loss-free network, and the victim is polled exactly per poll_at. Every octet accepted by send must then arrive,
+/// the close handshake must complete, and while anything is outstanding poll_at must name an instant.
+#[allow(clippy::too_many_arguments)]
+fn honest_epilogue(c: &mut Ctx, su: &Setup, key: u64, total: u64, mut written: u64, mut closed: bool, mut got: Ranges, mut fin_any: Option<i64>, mut p_fin_sent: bool, pshift: u32) -> Result<(), Violation> {
+    let iss = c.iss_v.unwrap();
+    let irs = c.irs;
+    c.stats.inc("c02.honest-epilogues");
+    if closed && fin_any.is_none() {
+        c.stats.inc("c02.honest-epilogues.begun-with-the-fin-lost");
+    }
+    let t0 = c.now;
+    let mut last_progress = c.now;
+    let mut mark = (0u64, false, tcp::State::Closed, 0u64);
+    let mut pending: Vec<Packet> = vec![];
+    for round in 0..30_000u32 {
+        // ---- the application writes what is left and closes
+        if !closed && written < total {
+            let n = (total - written).min(2 * su.tx as u64) as usize;
+            let buf: Vec<u8> = (0..n as u64).map(|j| stream_byte(key, written + j)).collect();
+            let r = {
+                let s = c.node.sockets.get_mut::<tcp::Socket>(c.h);
+                guard("tcp::send_slice", || s.send_slice(&buf))?
+            };
+            if let Ok(k) = r {
+                written += k as u64;
+            }
+        }
+        if !closed && written == total {
+            let s = c.node.sockets.get_mut::<tcp::Socket>(c.h);
+            guard("tcp::close", || s.close())?;
+            closed = true;
+        }
+        let mut frames = c.poll()?;
+        frames.append(&mut pending);
+        // ---- the peer takes everything in and acknowledges like a correct receiver
+        let mut reply = false;
+        for p in &frames {
+            let Some((_, t)) = p.tcp() else { continue };
+            if t.has(F_RST) || t.has(F_SYN) {
+                continue;
+            }
+            let off = seq_diff(t.seq, iss);
+            let len = t.payload.len() as i64;
+            let expected = 1 + got.prefix() as i64;
+            if len > 0 {
+                got.add((off - 1).max(0) as u64, ((off - 1 + len).max(0) as u64).min(written));
+            }
+            if t.has(F_FIN) {
+                fin_any = Some(off + len);
+            }
+            // (an empty segment at or beyond the next expected octet is acceptable and needs no answer, RFC 9293 3.10.7.4;
+            // one before it - a keep-alive - is answered)
+            if len > 0 || t.has(F_FIN) || off < expected {
+                reply = true;
+            }
+        }
+        let have = 1 + got.prefix() as i64;
+        let fin_seen = fin_any.map(|f| have == f).unwrap_or(false);
+        if fin_seen && !p_fin_sent {
+            p_fin_sent = true;
+            reply = true;
+        }
+        // (our FIN is repeated until the victim has acknowledged it)
+        let fin_acked = p_fin_sent && c.v_ack == irs.wrapping_add(2);
+        if p_fin_sent && !fin_acked && round % 8 == 7 {
+            reply = true;
+        }
+        if reply {
+            let t = Tcp { seq: if fin_acked { irs.wrapping_add(2) } else { irs.wrapping_add(1) }, ack: iss.wrapping_add((have + fin_seen as i64) as u32), flags: if p_fin_sent && !fin_acked { F_ACK | F_FIN } else { F_ACK }, win: (65535u32 >> pshift.min(4)) as u16, ..Tcp::default() };
+            let f = c.seg(&t);
+            pending = c.inject(f)?;
+        }
+        let st = c.sock().state();
+        if matches!(st, tcp::State::Closed | tcp::State::TimeWait) {
+            break;
+        }
+        let sq = c.sock().send_queue() as u64;
+        let now_mark = (got.prefix(), fin_seen, st, sq);
+        if now_mark != mark {
+            mark = now_mark;
+            last_progress = c.now;
+        }
+        let outstanding = got.prefix() < written || (closed && !fin_seen);
+        if c.now - last_progress > 400_000_000 && outstanding {
+            return Err(viol("C02", "progress", format!("C02.progress/scripted-peer/state={},txq{}", st_name(st), if sq > 0 { ">0" } else { "=0" }), format!("a correct receiver with an open window on a loss-free network, victim polled per poll_at: no progress for 400 simulated seconds ({} of {} octets written have arrived, FIN {} arrived; victim state {}, send queue {}; epilogue began at t={} us, now {} us)", got.prefix(), written, if fin_seen { "has" } else { "has not" }, st_name(st), sq, t0, c.now)));
+        }
+        if !pending.is_empty() {
+            continue;
+        }
+        match c.node.poll_at(c.now)? {
+            Some(t) if t > c.now => c.now = t.min(c.now + 120_000_000),
+            Some(_) => c.now += 1_000,
+            None => {
+                if outstanding {
+                    return Err(viol("C02", "deadline", format!("C02.deadline/scripted-peer/state={},txq{}", st_name(st), if sq > 0 { ">0" } else { "=0" }), format!("{} of {} octets accepted by send have reached the peer (FIN {} arrived) and the peer has acknowledged all it got, yet Interface::poll_at returned None (victim state {}, send queue {})", got.prefix(), written, if fin_seen { "has" } else { "has not" }, st_name(st), sq)));
+                }
+                c.now += 1_000_000;
+            }
+        }
+        if round == 29_999 {
+            c.stats.inc("c02.honest-epilogue-capped");
+        }
+    }
+    c.stats.inc("c02.honest-epilogues-completed");
     Ok(())
 }
 
